@@ -129,7 +129,7 @@ pub unsafe extern "C" fn vq_candidates(
     c.calls.borrow_mut()[1] += 1;
     // the very answer the Rust-side provider gives (a lock, hint or exclusion may name a
     // solvable that is not among the listed candidates)
-    let ans = vcore::provider::candidates_answer(&c.u, c.ix.name[&name]).expect("expressible universes have no missing package");
+    let ans = vcore::provider::candidates_answer(&c.u, c.ix.name[&name], false).expect("expressible universes have no missing package");
     let (p, l) = c.keep(ans.candidates.iter().map(|s| s.0).collect());
     *cands = p;
     *n = l;
